@@ -398,7 +398,7 @@ func (r *realm) onLeave(sess *wamp.Session, shutdown, killAll bool) {
 // HandleSession starts a session attached to this realm.
 //
 // Routing occurs only between WAMP Sessions that have joined the same Realm.
-func (r *realm) handleSession(sess *wamp.Session) error {
+func (r *realm) handleSession(sess *wamp.Session, welcome *wamp.Welcome) error {
 	// The lock is held in mutual exclusion with the closing of the realm. This
 	// ensures that no new session handler can start once the realm is closing,
 	// during which the realm waits for all existing session handlers to exit.
@@ -420,6 +420,16 @@ func (r *realm) handleSession(sess *wamp.Session) error {
 		r.log.Println("Handling messages for session", sess)
 	}
 	go func() {
+		// WELCOME is sent from the session's own handler, before it handles
+		// any message. Only this goroutine closes the session's peer when it
+		// exits, so WELCOME can never be sent to a closed peer, whatever
+		// happens to the session in the meantime (the client disconnects, the
+		// session is killed, the realm closes).
+		select {
+		case sess.Send() <- welcome:
+		case <-sess.RecvDone():
+			// Session was told to end before WELCOME could be delivered.
+		}
 		shutdown, killAll, err := r.handleInboundMessages(sess)
 		if err != nil {
 			abortMsg := wamp.Abort{
